@@ -244,8 +244,13 @@ class PseudoOperand(Operand):
 
     def resolve_symbols(self, symbol_table):
         is_data = self.instruction.is_multi_byte or self.instruction.is_multi_word
-        if is_data and (self.value.is_symbol() or self.value.is_expression()):
+        is_layout = self.instruction.mnemonic in ["RMB", "ORG"]
+        if (is_data or is_layout) and (self.value.is_symbol() or self.value.is_expression()):
             self.value = self.value.resolve(symbol_table)
+        if is_layout and (not self.value.is_numeric() or self.value.is_negative()):
+            raise OperandTypeError(
+                "[{}] requires a non-negative value that is known before layout".format(self.instruction.mnemonic)
+            )
         return self
 
     def translate(self):
